@@ -284,23 +284,44 @@ fn nuts_chain(c: &Value, acc: &mut Acc) {
 fn nuts_multi(c: &Value, n_chains: usize, acc: &mut Acc) {
     let target = DiffableGaussian2D::<f32>::new([0.0, 1.0], [[1.5, 0.4], [0.4, 1.0]]);
     let inits: Vec<Vec<f32>> = (0..n_chains).map(|i| vec![i as f32 * 0.3, -(i as f32) * 0.2]).collect();
-    let mut s = NUTS::<f32, B32, _>::new(target, inits, 0.8).set_seed(31);
+    nuts_multi_on::<B32, f32, _>(c, target, inits, 31, "NUTS", acc);
+}
+
+/// Chains that share their starting point (the usual `vec![start; n]` construction) are still separate chains: each makes
+/// its own start-up search with its own momentum.  Eight chains, two starting points, seed varied with the case.
+fn nuts_multi_same_start(c: &Value, idx: usize, acc: &mut Acc) {
+    let target = DiffableGaussian2D::<f64>::new([0.0, 1.0], [[1.5, 0.4], [0.4, 1.0]]);
+    let inits: Vec<Vec<f64>> = (0..8).map(|i| if i % 4 == 3 { vec![-0.7, 2.1] } else { vec![1.3, -0.4] }).collect();
+    nuts_multi_on::<B64, f64, _>(c, target, inits, 1000 + 7 * idx as u64, "NUTS (chains sharing a start)", acc);
+}
+
+fn nuts_multi_on<B, T, G>(c: &Value, target: G, inits: Vec<Vec<T>>, seed: u64, who: &str, acc: &mut Acc)
+where
+    B: burn::tensor::backend::AutodiffBackend + Send,
+    T: num_traits::Float + burn::tensor::Element + burn::tensor::ElementConversion + rand_distr::uniform::SampleUniform + num_traits::FromPrimitive + Send,
+    G: mini_mcmc::distributions::GradientTarget<T, B> + Sync + Clone + Send,
+    rand_distr::StandardNormal: rand::distr::Distribution<T>,
+    rand_distr::StandardUniform: rand_distr::Distribution<T>,
+    rand_distr::Exp1: rand::distr::Distribution<T>,
+{
+    let n_chains = inits.len();
+    let mut s = NUTS::<T, B, _>::new(target, inits, T::from(0.8).unwrap()).set_seed(seed);
     let mut singles: Vec<_> = s.verif_chains().clone();
     let calls = calls_of(c);
     for (k, (nc, nd)) in calls.iter().enumerate() {
         acc.evals += 1;
         let multi = match catch(|| { let t = s.run(*nc, *nd); (t.dims(), t.into_data().convert::<f64>().to_vec::<f64>().unwrap()) }) {
             Ok(o) => o,
-            Err(e) => return acc.fail(c, "NUTS", format!("call {k}: panic {e}")),
+            Err(e) => return acc.fail(c, who, format!("call {k}: panic {e}")),
         };
         if multi.0 != [n_chains, *nc, 2] {
-            return acc.fail(c, "NUTS", format!("call {k}: shape {:?}", multi.0));
+            return acc.fail(c, who, format!("call {k}: shape {:?}", multi.0));
         }
         for (i, ch) in singles.iter_mut().enumerate() {
             let one = ch.run(*nc, *nd).into_data().convert::<f64>().to_vec::<f64>().unwrap();
             let got = &multi.1[i * nc * 2..(i + 1) * nc * 2];
             if got.iter().zip(&one).any(|(a, b)| a.to_bits() != b.to_bits()) {
-                return acc.fail(c, "NUTS", format!("call {k}: row {i} of the multi-chain runner differs from chain {i} run individually"));
+                return acc.fail(c, who, format!("call {k}: row {i} of the multi-chain runner differs from chain {i} run individually"));
             }
         }
     }
@@ -333,6 +354,7 @@ pub fn replay(args: &[String]) {
                 if heavy {
                     nuts_chain(c, &mut acc);
                     nuts_multi(c, 3, &mut acc);
+                    nuts_multi_same_start(c, idx, &mut acc);
                 }
             }
             v => tool_error(&format!("variant {v}")),
